@@ -1,7 +1,7 @@
 from .base import *
 
 ID = 'C14'
-THEOREMS = ['C14_same', 'C14_opposite', 'C14_path_symmetric']
+THEOREMS = ['C14_same', 'C14_opposite', 'C14_path_symmetric', 'C14_general_history']
 OWNED = {'GAdd'}
 RULE = ('pairs with identical angles, exactly opposite angles (built with negate/dual/conjugate), and angles more than 1e-9 rad from both; magnitudes equal / within 1e-10 / ulps apart / different; blades to 2^40; '
         'a+b and b+a; running sums. non-trivial = sum differs from both operands')
